@@ -105,6 +105,31 @@ def script_set(ex):
     ex.oblige('C01.set.post.never_grows_elsewhere', ops.forall([k], z3.Implies(
         z3.Not(ppos(n, k)),
         z3.Select(db.usage, k) <= z3.Select(usage0, k))), 'C')
+    # generations: every provider / consumer named by the request is bumped
+    # exactly once, nobody else's generation changes
+    rp0 = db0.tables['resource_providers']
+    rp1 = db.tables['resource_providers']
+    vis = I.ghost.get('set.visited_rps')
+    if vis is not None:
+        ki = z3.Int('ki!setpost')
+        ex.oblige('C01.set.post.provider_generations', ops.forall(
+            [ki], z3.Select(rp1.data['generation'], ki) ==
+            z3.Select(rp0.data['generation'], ki) +
+            z3.If(AC.rp_bumped(I, vis, rp0, ki), 1, 0),
+            patterns=[z3.Select(rp1.data['generation'], ki)]), 'C')
+        # (the visited map holds exactly the providers named by the request:
+        # C01.check.sound.providers / .providers_from_allocs)
+    visc = I.ghost.get('set.visited_consumers')
+    if visc is not None:
+        c0 = db0.tables['consumers']
+        c1 = db.tables['consumers']
+        kc = z3.Int('kc!setpost')
+        ex.oblige('C01.set.post.consumer_generations', ops.forall(
+            [kc], z3.Implies(z3.Select(c1.exists, kc),
+                             z3.Select(c1.data['generation'], kc) ==
+                             z3.Select(c0.data['generation'], kc) +
+                             z3.If(z3.Select(visc.dom, kc), 1, 0)),
+            patterns=[z3.Select(c1.data['generation'], kc)]), 'C')
     ex.oblige('C01.set.post.exact', ops.forall([k],
               z3.Select(db.usage, k) == z3.Select(I.ghost['set.usage_d'], k)
               + psum(n, k)), 'C')
